@@ -177,6 +177,32 @@ type Nested struct {
 	An1 struct{ Q *int }
 }
 
+// G is the node type of the C02 graph generator: every field kind through which the encoder
+// can reach another node, plus referable payloads.
+type G struct {
+	ID  int
+	Str string
+	P   *G
+	Q   *G
+	S   []*G
+	M   map[string]*G
+	A   [2]*G
+	I   interface{}
+	PS  *[]*G
+	PM  *map[string]*G
+	B   []byte
+	T   time.Time
+	U   uuid.UUID
+}
+
+// H is a second node type (mutual recursion with G through interface{} and pointers).
+type H struct {
+	N    int
+	G    *G
+	Next *H
+	Any  []interface{}
+}
+
 // Unreg is never registered with io.Register: it can be decoded into typed destinations only.
 type Unreg struct {
 	A int
@@ -191,7 +217,7 @@ var StructTypes = []reflect.Type{
 	reflect.TypeOf(Scalars{}), reflect.TypeOf(Ptrs{}), reflect.TypeOf(Libs{}), reflect.TypeOf(Slices{}),
 	reflect.TypeOf(Maps{}), reflect.TypeOf(Tagged{}), reflect.TypeOf(Embeds{}), reflect.TypeOf(Node{}),
 	reflect.TypeOf(Tree{}), reflect.TypeOf(MutA{}), reflect.TypeOf(MutB{}), reflect.TypeOf(Nested{}),
-	reflect.TypeOf(Unreg{}), reflect.TypeOf(Empty{}),
+	reflect.TypeOf(Unreg{}), reflect.TypeOf(Empty{}), reflect.TypeOf(G{}), reflect.TypeOf(H{}),
 }
 
 // NamedScalars lists the named non-struct types.
